@@ -55,7 +55,10 @@ vars   == <<mpvars, mivars, last>>
 \* rxo: the queue's Receiver is alive; wreset: FlowControl::reset of the direction this side
 \* writes (set when the entry is torn down by an RST or by reset_stream, never by a graceful close)
 NoSide  == [ent |-> FALSE, ref |-> 0, nseq |-> 1, rseq |-> 0, rob |-> {}, chan |-> <<>>,
-            rxb |-> <<>>, closed |-> FALSE, shut |-> FALSE, rxo |-> FALSE, wreset |-> FALSE]
+            rxb |-> <<>>, closed |-> FALSE, shut |-> FALSE, rxo |-> FALSE, wreset |-> FALSE, shutvia |-> "none"]
+\* shutvia: which object performed shutdown(): the whole TcpStream or the OwnedWriteHalf of a split
+\* stream (the two go through different AsyncWrite impls; kept in the state so that behaviour
+\* generation continues after either of them)
 NewSide == [NoSide EXCEPT !.ent = TRUE, !.ref = 2, !.rxo = TRUE]
 NoLq    == [bound |-> FALSE, kind |-> "any", q |-> <<>>]
 
@@ -293,7 +296,8 @@ Shutdown(c, s) ==
        ELSE IF ~side[k].ent
        THEN /\ Act([a |-> "shutdown", c |-> c, s |-> s, res |-> "brokenpipe"])
             /\ UNCHANGED <<mpvars, side, wire>>
-       ELSE /\ side' = [side EXCEPT ![k].nseq = @ + 1, ![k].shut = TRUE]
+       ELSE /\ side' = [side EXCEPT ![k].nseq = @ + 1, ![k].shut = TRUE,
+                                    ![k].shutvia = IF hv[k].r THEN "whole" ELSE "owned"]
             /\ wire' = Send(wire, CHost(c), Msg(c, Other(s), "fin", side[k].nseq, <<>>))
             /\ P_Shutdown(c, s)
             /\ Act([a |-> "shutdown", c |-> c, s |-> s, res |-> "ok"])
